@@ -229,6 +229,24 @@ def features(pieces, p1):
     return f
 
 
+# an earlier capture whose extraction occupies the output location in the two-step sequences (unknown types: no P1 table needed)
+PRIOR_MSGS = [fe(60010, bytes(range(30)), 1), fe(60011, b'prior', 2), fe(60012, bytes(70), 3)]
+PRIOR_FILE = b'\x01junk.' + PRIOR_MSGS[0] + b'.1xx' + PRIOR_MSGS[1] + PRIOR_MSGS[2] + b'tail'
+PRIOR_OUT = b''.join(PRIOR_MSGS)
+
+
+def over_spec(i, prior_idx):
+    """what lies at the output path before the case's input is extracted into it"""
+    k = int(i) % 4
+    if k == 0:
+        return {'kind': 'files', 'out': PRIOR_OUT.hex(), 'idx': prior_idx}
+    if k == 1:
+        return {'kind': 'extract', 'hex': PRIOR_FILE.hex(), 'save_index': True}
+    if k == 2:
+        return {'kind': 'extract', 'hex': PRIOR_FILE.hex(), 'save_index': False}
+    return {'kind': 'extract', 'hex': PRIOR_FILE.hex(), 'save_index': True, 'second_save_index': False}
+
+
 def evaluate(ctx, model, cases, record=True):
     """cases: list of piece lists. Returns list (one per case) of lists of findings:
     ('violation', signature, text, casedict) or ('corr', text, casedict)."""
@@ -239,8 +257,10 @@ def evaluate(ctx, model, cases, record=True):
         ctx.log('SPEC scan done')
     frames = [[] if l == '-' else [[int(a) for a in fr.split(':')] for fr in l.split(',')] for l in frames_l]
     # the two extra call variants (no return_counts / save_index=False) on every 2nd case and on all small batches
-    impl = run_impl(ctx, 'run', [{'id': i, 'hex': f.hex(), 'frames': fr, 'variants': len(cases) < 40 or int(i) % 2 == 0}
-                                 for i, f, fr in zip(ids, files, frames)])
+    prior_idx = vf.run_lines(model, ['I %s -' % hx(PRIOR_OUT)])[1][0]
+    overs = [over_spec(i, prior_idx) for i in ids]
+    impl = run_impl(ctx, 'run', [{'id': i, 'hex': f.hex(), 'frames': fr, 'variants': len(cases) < 40 or int(i) % 2 == 0, 'over': ov}
+                                 for i, f, fr, ov in zip(ids, files, frames, overs)])
     if record:
         ctx.log('IMPL done')
     tables = []
@@ -257,6 +277,13 @@ def evaluate(ctx, model, cases, record=True):
     # SPEC-side fresh index of the (spec) output
     spec_out = [b''.join(f[o:o + n] for o, n in fr) for f, fr in zip(files, frames)]
     mi = vf.run_parallel(model, ['I %s %s' % (hx(o), tab(t)) for o, t in zip(spec_out, tables)])
+    # MODEL of the extraction over the existing location (prior state as the implementation left it after step one)
+    xo_lines = []
+    for i, f, t, ov in zip(ids, files, tables, overs):
+        pr = impl[i].get('over', {}).get('prior') or {'out': None, 'idx': None}
+        xo_lines.append('XO %s %s %d %s %s' % (hx(f), tab(t), 0 if ov.get('second_save_index') is False else 1,
+                                               'none' if pr['out'] is None else (pr['out'] or '-'), 'none' if pr['idx'] is None else (pr['idx'] or '-')))
+    mxo = vf.run_parallel(model, xo_lines)
     results = []
     for ci, (pieces, f, fr, so, t) in enumerate(zip(cases, files, frames, spec_out, tables)):
         r = impl[ids[ci]]
@@ -270,7 +297,7 @@ def evaluate(ctx, model, cases, record=True):
         big = any(v is not None and v >= TIME_INVALID for v in t.values())
         feat = {'bigstamp': big, 'type0_last': bool(fr) and struct.unpack_from('<H', f, fr[-1][0] + 10)[0] == 0}
         case = {'pieces': pieces, 'file_hex': f.hex(), 'spec_frames': fr, 'p1': t,
-                'impl': {k: r.get(k) for k in ('x1', 'x2', 'x2b', 'x3', 'fresh', 'load')}, 'model': m,
+                'impl': {k: r.get(k) for k in ('x1', 'x2', 'x2b', 'x3', 'fresh', 'load', 'over')}, 'model': m, 'model_over': mxo[ci], 'over': overs[ci],
                 'spec': {'out': so.hex() if n else None, 'count': n, 'counts': types}}
 
         def viol(obs, text, **kw):
@@ -327,6 +354,27 @@ def evaluate(ctx, model, cases, record=True):
                         viol('idempotence', 'extracting the output again gives different bytes')
                     elif x3['idx'] != x1['idx'] or x3['ret'] != x1['ret']:
                         viol('idempotence', 'extracting the output again gives a different index or count')
+            ov = r.get('over')
+            if ov is not None:
+                second_saves = overs[ci].get('second_save_index', True)
+                if 'exc' in ov['ret'] or (ov['first'] is not None and 'exc' in ov['first']):
+                    e = ov['ret'] if 'exc' in ov['ret'] else ov['first']
+                    viol('exception', 'extraction into an output path that already exists raised %s: %s' % (e['exc'], e['msg']), exc=e['exc'], prior_output=True)
+                elif ov['out'] != want_out:
+                    if want_out is None:
+                        viol('no-output', 'a message-free input extracted over an existing output left a %d-byte output file behind' % (len(ov['out']) // 2), prior_output=True)
+                    else:
+                        viol('output-bytes', 'extracted over an existing output, the file is not the concatenation of this input\'s %d messages' % n, prior_output=True)
+                elif ov['ret']['ok'] != [n, types]:
+                    viol('return', 'extracted over an existing output, the return value is %r, expected %r' % (ov['ret']['ok'], [n, types]), prior_output=True)
+                elif n and second_saves and ov['idx'] != x1['idx']:
+                    viol('index-vs-fresh', 'extracted over an existing output, the .p1i is not the index of the new output', prior_output=True)
+                elif not found:
+                    d = dict(kv.split('=', 1) for kv in mxo[ci].split(';'))
+                    unhex = lambda s: None if s == 'none' else ('' if s == '-' else s)
+                    if ov['out'] != unhex(d['out']) or ov['idx'] != unhex(d['idx']):
+                        found.append(('corr', 'extract-over-existing-location model differs from the implementation (out %s, idx %s)'
+                                      % (ov['out'] == unhex(d['out']), ov['idx'] == unhex(d['idx'])), case))
             # correspondence IMPL vs MODEL (only when IMPL agrees with SPEC: otherwise the violation is the report)
             if not found:
                 if x1['out'] != m['out'] or x1['ret']['ok'] != [m['count'], m['counts']] or x1['idx'] != m['idx']:
@@ -435,7 +483,7 @@ def run(ctx):
         ctx.sample({'pieces': [k for k, _ in c], 'file_bytes': len(file_of(c))})
     # the command line tool on a few inputs (same observables through applications/p1_extract.py)
     ctx.log('shrunk / reported')
-    app_cases = corpus + [c for c in cases if c][:: max(1, len(cases) // (12 if ctx.thorough else 4))][: (12 if ctx.thorough else 4)] + [[]]
+    app_cases = corpus + [c for c in cases if c][:: max(1, len(cases) // (8 if ctx.thorough else 2))][: (8 if ctx.thorough else 2)] + [[]]
     files = [file_of(c) for c in app_cases]
     fr = vf.run_parallel(model, ['F ' + hx(f) for f in files])
     app = run_impl(ctx, 'app', [{'id': str(i), 'hex': f.hex(), 'frames': []} for i, f in enumerate(files)], nproc=min(8, len(files)))
@@ -450,10 +498,13 @@ def run(ctx):
             ctx.violation({'obs': 'p1_extract-tool', 'rc': a['rc']}, 'p1_extract on a %d-byte input: exit code %s, output %s the scanned messages; %s'
                           % (len(f), a['rc'], 'equals' if a['out'] == want else 'differs from', a['stderr'][-200:]),
                           {'pieces': app_cases[i], 'file_hex': f.hex(), 'app': a, 'spec_out': want})
+    app_sequences(ctx, model, cases)
     ctx.coverage['rule'] = ('files = concatenations of 0-12 pieces of %d kinds (%s); every kind alone, after / before / between plain messages, pairs of noise '
                             'kinds, then %d random mixes; per file: extraction with and without return_counts and with save_index=False into separate explicit paths, '
                             'fresh index of a copy of the output by fast_generate_index(force_reindex), FileIndex load of the written .p1i, second extraction into a '
-                            'third path; plus the p1_extract tool on a sample. A case is distinct by the SHA-1 of the file.' % (len(ALL_KINDS), ', '.join(ALL_KINDS), 1500 if ctx.thorough else 150))
+                            'third path, extraction over an output location that already holds an earlier output (files put there, or a first extraction with / without index; second with / without index); '
+                            'the p1_extract tool as a subprocess on a sample, and p1_extract.main() in-process in %d sequences of 2-3 captures lying in one directory (names .bin/.raw/.rtcm3/none, all written before the first run) '
+                            'extracted one after the other into the same -o/-p output (shapes: messages then message-free, messages then other messages, message-free then messages, same input twice ...). A case is distinct by the SHA-1 of the file.' % (len(ALL_KINDS), ', '.join(ALL_KINDS), 1500 if ctx.thorough else 150, 60 if ctx.thorough else 14))
     ctx.coverage['exhaustive'] = False
     ctx.trusted_base += ['Coq 8.16.1 kernel + vm_compute', 'extraction (ExtrOcamlBasic only), ocaml/conv.ml + c18_driver.ml',
                          'payload classes (cls().unpack / get_p1_time) are a parameter p1 of the model: the theorems hold for every p1; the correspondence run fills it with the values the library computes on the exact payload bytes (codec = C01)',
@@ -467,10 +518,81 @@ def run(ctx):
                         'P1 seconds are observed through isnan and the integer part only (binary64 abstracted to option N)']
 
 
+def app_sequences(ctx, model, cases):
+    """multi-step use of the application entry point: several captures in one directory extracted one after the other by
+    p1_extract.main() into the SAME output (-o dir -p out); after every step the output location must hold exactly the
+    extraction of that step's input."""
+    r = ctx.rng
+    pool = [c for c in cases if c][: 80]
+    files = [file_of(c) for c in pool]
+    fr = [[] if l == '-' else [[int(a) for a in x.split(':')] for x in l.split(',')] for l in vf.run_parallel(model, ['F ' + hx(f) for f in files])]
+    withm = [i for i, x in enumerate(fr) if x]
+    without = [i for i, x in enumerate(fr) if not x] or [None]
+    if not withm:
+        return
+    nseq = 60 if ctx.thorough else 14
+    shapes = ['AZ', 'AC', 'ZA', 'AZC', 'AA', 'ACZ', 'ZZ']
+    seqs = []
+    for k in range(nseq):
+        sh = shapes[k % len(shapes)]
+        a, c = r.choice(withm), r.choice(withm)
+        z = r.choice(without)
+        seqs.append([{'A': a, 'C': c, 'Z': z}[ch] for ch in sh])
+    names = ['cap%d.bin', 'cap%d.raw', 'cap%d', 'cap%d.rtcm3']
+    recs = []
+    for si, sq in enumerate(seqs):
+        steps = []
+        for j, ix in enumerate(sq):
+            f = b'' if ix is None else files[ix]
+            steps.append({'hex': f.hex(), 'name': names[(si + j) % len(names)] % j, 'frames': [] if ix is None else fr[ix]})
+        recs.append({'id': str(si), 'steps': steps})
+    res = run_impl(ctx, 'appseq', recs)
+    tab = lambda t: ','.join('%s=%s' % (h, 'n' if v is None else v) for h, v in t.items()) or '-'
+    for si, rec in enumerate(recs):
+        out = res[str(si)]
+        if 'harness_error' in out:
+            raise RuntimeError('c18 appseq harness error: %s\n%s' % (out['harness_error'], out.get('tb')))
+        prev_idx = None
+        for j, (st, o) in enumerate(zip(rec['steps'], out['steps'])):
+            f = bytes.fromhex(st['hex'])
+            want = b''.join(f[a:a + n] for a, n in st['frames']).hex() if st['frames'] else None
+            ctx.case(('appseq', si, j)); ctx.count('p1_extract.main-step:' + ('messages' if want else 'message-free') + (':over-existing' if j else ':fresh'))
+            case = {'sequence': [{'name': x['name'], 'hex': x['hex']} for x in rec['steps']], 'step': j, 'impl': o, 'spec_out': want}
+            sig = {'obs': 'p1_extract-sequence', 'step': 'first' if j == 0 else 'later', 'input_has_messages': want is not None}
+            if 'exc' in o['ret'] or o['ret']['ok'] not in (None, 0):
+                ctx.violation(dict(sig, what='exit'), 'p1_extract.main() step %d of %r ended with %r' % (j, [x['name'] for x in rec['steps']], o['ret']), case)
+            elif o['out'] != want:
+                ctx.violation(dict(sig, what='output'), 'p1_extract step %d (%s, %d bytes) into an output location %s: the output file %s, expected %s'
+                              % (j, st['name'], len(f), 'used by an earlier step' if j else 'that is new',
+                                 'is absent' if o['out'] is None else 'has %d bytes' % (len(o['out']) // 2), 'none' if want is None else '%d bytes (the scanned messages)' % (len(want) // 2)), case)
+            else:
+                t = {h: v for h, v in o['p1']}
+                m = parse_model_x(vf.run_lines(model, ['X %s %s' % (hx(f), tab(t))])[1][0])
+                exp_idx = m['idx'] if m['idx'] is not None else prev_idx
+                if want is not None and o['idx'] != m['idx']:
+                    ctx.violation(dict(sig, what='index'), 'p1_extract step %d: the .p1i is not the index of the new output' % j, case)
+                elif want is None and o['idx'] != exp_idx:
+                    ctx.broken_correspondence('p1_extract on a message-free input: model leaves the earlier .p1i untouched, implementation differs', case)
+            prev_idx = o['idx']
+
+
 def replay(ctx, rec):
     case = rec.get('case', rec)
     gen_fe.generate(); gen_c09.generate()
     model = build_model()
+    if 'sequence' in case:
+        steps = []
+        for x in case['sequence']:
+            l = vf.run_lines(model, ['F ' + (x['hex'] or '-')])[1][0]
+            steps.append({'hex': x['hex'], 'name': x['name'], 'frames': [] if l == '-' else [[int(a) for a in y.split(':')] for y in l.split(',')]})
+        out = run_impl(ctx, 'appseq', [{'id': '0', 'steps': steps}])['0']
+        bad = 0
+        for j, (st, o) in enumerate(zip(steps, out['steps'])):
+            f = bytes.fromhex(st['hex'])
+            want = b''.join(f[a:a + n] for a, n in st['frames']).hex() if st['frames'] else None
+            print('step %d %s: IMPL ret %r out %s idx %s | SPEC out %s' % (j, st['name'], o['ret'], o['out'] and len(o['out']) // 2, o['idx'] and len(o['idx']) // 2, want and len(want) // 2))
+            bad += o['out'] != want
+        return 1 if bad else 0
     pieces = case['pieces']
     found = evaluate(ctx, model, [pieces], record=False)[0]
     f = file_of(pieces)
